@@ -203,6 +203,8 @@ class State:
         return name
 
     def fresh_int(self, origin, w, lo=None, hi=None, defn=None):
+        if lo is not None and lo == hi:
+            return Int(w, Aff(lo))
         return Int(w, Aff.sym(self.fresh(origin, w, lo, hi, defn)))
 
     # ---- env ---------------------------------------------------------------------
